@@ -266,6 +266,14 @@ func checkInsertion(c *Check, fn *ssa.Function, s ssa.CallInstruction, getter, c
 				}
 			}
 		}
+		// form C: g = append(old, zero); copy(g[i+1:], g[i:]); g[i] = new
+		if isOld(base) {
+			if i, ok := growShiftSet(fn, a, isNew); ok {
+				idxV = i
+				oldV = base
+				return
+			}
+		}
 		okForms, why = false, "unrecognised insertion form: "+vstr(l)
 	})
 	if !okForms || nForms == 0 || oldV == nil {
@@ -570,12 +578,9 @@ func checkMatchAllTree(c *Check) {
 			nextStep = e
 		}
 	}
-	idxCall := vCall("strings.Index", func(v ssa.Value) bool {
-		sl, ok := strip(v).(*ssa.Slice)
-		return ok && pathP(sl.X) && sl.Low != nil && strip(sl.Low) == ssa.Value(nextPhi) && sl.High == nil
-	}, vConstStr("/"))
-	stepOK := nextStep != nil && (vBin(token.ADD, vIs(nextPhi), vBin(token.ADD, idxCall, vConstInt(1)))(nextStep) ||
-		vBin(token.ADD, vBin(token.ADD, vIs(nextPhi), idxCall), vConstInt(1))(nextStep))
+	restM := vSub(pathP, linSum(0, vIs(nextPhi)), nil)
+	idxCall := vIdxSlash(restM)
+	stepOK := nextStep != nil && linSum(1, vIs(nextPhi), idxCall)(linOf(nextStep))
 	c.Cond(initOK && stepOK, key+":cursor-step", p.Pos(M.Pos()), "cursor = φ(next, cursor + Index(path[cursor:], \"/\") + 1): one segment per iteration", "the cursor does not advance by exactly one segment per iteration: "+vstr(args[2]))
 	// order: attempt precedes extension
 	if si, ok := strip(nextStep).(ssa.Instruction); ok && nextStep != nil {
@@ -604,11 +609,8 @@ func checkMatchAllTree(c *Check) {
 				if segP(e) {
 					i0 = true
 				} else {
-					piece := func(v ssa.Value) bool {
-						sl, ok := strip(v).(*ssa.Slice)
-						return ok && pathP(sl.X) && sl.Low != nil && strip(sl.Low) == ssa.Value(nextPhi) && sl.High != nil && vBin(token.ADD, vIs(nextPhi), idxCall)(sl.High)
-					}
-					if vBin(token.ADD, vIs(segPhi), vBin(token.ADD, vConstStr("/"), piece))(e) || vBin(token.ADD, vBin(token.ADD, vIs(segPhi), vConstStr("/")), piece)(e) {
+					piece := vSub(pathP, linSum(0, vIs(nextPhi)), linSum(0, vIs(nextPhi), idxCall))
+					if vConcat(vIs(segPhi), vConstStr("/"), piece)(e) {
 						st = true
 					}
 				}
@@ -697,13 +699,12 @@ func checkMatchAllLeafBound(c *Check) {
 	recv := vParam(fn, 0)
 	pathP, nextP := vParam(fn, 1), vParam(fn, 3)
 	capF := vField(recv, "capture")
-	count := vBin(token.ADD, vCall("strings.Count", func(v ssa.Value) bool {
-		sl, ok := strip(v).(*ssa.Slice)
-		return ok && pathP(sl.X) && sl.High == nil && sl.Low != nil && vBin(token.SUB, nextP, vConstInt(1))(sl.Low)
-	}, vConstStr("/")), vConstInt(1))
+	slashes := vCall("strings.Count", vSub(pathP, linSum(-1, nextP), nil), vConstStr("/"))
+	// reject ⇔ capture < Count+1 ⇔ capture − Count − 1 < 0
+	exceeds := cLinLess(linForm(-1, []VM{capF}, []VM{slashes}))
 	accept := union(
 		edgesWhere(fn, cCmp(token.GTR, capF, vConstInt(0)), false),
-		edgesWhere(fn, cCmp(token.LSS, capF, count), false),
+		edgesWhere(fn, exceeds, false),
 	)
 	var mu *ssa.MapUpdate
 	allInstrs(fn, func(in ssa.Instruction) {
@@ -718,7 +719,7 @@ func checkMatchAllLeafBound(c *Check) {
 	ok, path := guardedBy(fn, accept, isInstr(mu))
 	// converse: accept edges are not followed by a bound-based rejection: every false return is
 	// reachable only through the reject edge or the header edge
-	reject := edgesWhere(fn, cCmp(token.LSS, capF, count), true)
+	reject := edgesWhere(fn, exceeds, true)
 	hdr := edgesWhere(fn, cBool(vCall("(*route.baseLeaf).matchHeader")), false)
 	in, path2 := Query{Fn: fn, Cut: union(reject, hdr)}.FromEntry(falseVerdict(fn))
 	switch {
@@ -776,11 +777,21 @@ func checkDispatchEntry(c *Check) {
 		ok := false
 		for _, n := range ns {
 			as := callArgs(n.Common())
-			if vCall("strings.TrimLeft", vParam(m, 1), vConstStr("/"))(as[1]) && vConstInt(0)(as[2]) {
+			if vTrimLeftSlash(vParam(m, 1))(as[1]) && vConstInt(0)(as[2]) {
 				ok = true
+				if ph, isPhi := strip(as[1]).(*ssa.Phi); isPhi {
+					// hand-written trim loop: the match starts only after the loop was left
+					first := func(x ssa.Value) bool {
+						return isFirstByteOf(x, ph)
+					}
+					left := union(edgesWhere(m, cCmp(token.EQL, first, vConstInt('/')), false), edgesWhere(m, cCmp(token.GTR, vLen(vIs(ph)), vConstInt(0)), false))
+					if g, _ := guardedBy(m, left, isInstr(n)); !g || len(left) == 0 {
+						ok = false
+					}
+				}
 			}
 		}
-		c.Cond(ok, k2+":entry", p.FuncPos(m), "matching starts at cursor 0 of strings.TrimLeft(path, \"/\")", "matching does not start at cursor 0 of the path with leading slashes removed")
+		c.Cond(ok, k2+":entry", p.FuncPos(m), "matching starts at cursor 0 of the path with its leading slashes removed (strings.TrimLeft or an equivalent loop)", "matching does not start at cursor 0 of the path with leading slashes removed")
 	} else {
 		c.Anchor("baseTree.Match")
 	}
@@ -788,11 +799,8 @@ func checkDispatchEntry(c *Check) {
 	if m := p.Meth("route", "baseTree", "matchNextSegment"); m != nil {
 		k2 := p.FuncKey(m)
 		recv, pathP, nextP := vParam(m, 0), vParam(m, 1), vParam(m, 2)
-		rest := func(v ssa.Value) bool {
-			sl, ok := strip(v).(*ssa.Slice)
-			return ok && pathP(sl.X) && sl.High == nil && sl.Low != nil && nextP(sl.Low)
-		}
-		idx := vCall("strings.Index", rest, vConstStr("/"))
+		rest := vSub(pathP, linSum(0, nextP), nil)
+		idx := vIdxSlash(rest)
 		okL, okS := false, false
 		for _, ci := range callsNamed(m, "(*route.baseTree).matchLeaf") {
 			if recv(ci.Common().Args[0]) && rest(ci.Common().Args[1]) {
@@ -804,11 +812,8 @@ func checkDispatchEntry(c *Check) {
 		}
 		for _, ci := range callsNamed(m, "(*route.baseTree).matchSubtree") {
 			a := ci.Common().Args
-			seg := func(v ssa.Value) bool {
-				sl, ok := strip(v).(*ssa.Slice)
-				return ok && pathP(sl.X) && sl.Low != nil && nextP(sl.Low) && sl.High != nil && vBin(token.ADD, nextP, idx)(sl.High)
-			}
-			cur := vOr(vBin(token.ADD, vBin(token.ADD, nextP, idx), vConstInt(1)), vBin(token.ADD, nextP, vBin(token.ADD, idx, vConstInt(1))))
+			seg := vSub(pathP, linSum(0, nextP), linSum(0, nextP, idx))
+			cur := vLin(linSum(1, nextP, idx))
 			if recv(a[0]) && pathP(a[1]) && seg(a[2]) && cur(a[3]) {
 				g := edgesWhere(m, cCmp(token.EQL, idx, vConstInt(-1)), false)
 				if ok, _ := guardedBy(m, g, isInstr(ci)); ok && len(g) > 0 {
@@ -958,4 +963,50 @@ func checkRegexAcceptance(c *Check) {
 			c.OK(key, p.FuncPos(fn), "rejects only on nil/too-few sub-matches", numInstrs(fn))
 		}
 	}
+}
+
+// growShiftSet recognises the insert idiom on g (the result of append(old, x)):
+// copy(g[i+1:], g[i:]) followed by g[i] = new, with no other store into g; returns i.
+func growShiftSet(fn *ssa.Function, g *ssa.Call, isNew VM) (ssa.Value, bool) {
+	var cp ssa.CallInstruction
+	var idx ssa.Value
+	var st *ssa.Store
+	nStores := 0
+	for _, r := range referrers(g) {
+		switch x := r.(type) {
+		case *ssa.IndexAddr:
+			for _, r2 := range referrers(x) {
+				if s, ok := r2.(*ssa.Store); ok && s.Addr == ssa.Value(x) {
+					nStores++
+					if isNew(s.Val) {
+						st, idx = s, x.Index
+					}
+				}
+			}
+		}
+	}
+	if st == nil || nStores != 1 {
+		return nil, false
+	}
+	allInstrs(fn, func(in ssa.Instruction) {
+		ci, ok := in.(ssa.CallInstruction)
+		if !ok || callName(ci.Common()) != "builtin.copy" {
+			return
+		}
+		dst, dok := strip(ci.Common().Args[0]).(*ssa.Slice)
+		src, sok := strip(ci.Common().Args[1]).(*ssa.Slice)
+		if !dok || !sok || strip(dst.X) != ssa.Value(g) || strip(src.X) != ssa.Value(g) || dst.High != nil || src.High != nil || dst.Low == nil || src.Low == nil {
+			return
+		}
+		if strip(src.Low) == strip(idx) && linOf(dst.Low).equal(linOf(idx).plus(lin{k: 1}, 1)) {
+			cp = ci
+		}
+	})
+	if cp == nil {
+		return nil, false
+	}
+	if ok, _ := mustPrecede(fn, isInstr(cp), st); !ok {
+		return nil, false
+	}
+	return idx, true
 }
